@@ -142,6 +142,11 @@ impl AlcCodec for AlcRS2m {
             })
             .unwrap_or(8);
 
+        // m comes from the FTI of the packet or from the FDT: never trust it
+        if m as u32 >= u32::BITS {
+            return Err(FluteError::new(format!("Invalid finite field size m={}", m)));
+        }
+
         let sbn = payload_id_header >> m;
         let esi_mask = (1u32 << m) - 1u32;
         let esi = payload_id_header & esi_mask;
